@@ -85,15 +85,16 @@ func newEnv(pl *plan.Plan, out *plan.Outcome, keepLog bool) *Env {
 	e.Net = simnet.New()
 	if !e.Race {
 		e.Sim = simrt.New(simrt.Config{
-			Seed:     pl.Sched.Seed,
-			Choices:  pl.Sched.Choices,
-			Preempts: pl.Sched.Preempts,
-			Selects:  pl.Sched.Selects,
-			Sticky:   pl.Sched.Sticky,
-			MaxSteps: cfgOr(pl, "max_steps", 400_000),
-			MaxSyncs: cfgOr(pl, "max_syncs", 200_000),
-			Idle:     time.Duration(cfgOr(pl, "idle_ns", int64(48*time.Hour))),
-			KeepLog:  keepLog,
+			Seed:        pl.Sched.Seed,
+			Choices:     pl.Sched.Choices,
+			Preempts:    pl.Sched.Preempts,
+			Selects:     pl.Sched.Selects,
+			Sticky:      pl.Sched.Sticky,
+			UnlockYield: pl.Sched.UnlockYield,
+			MaxSteps:    cfgOr(pl, "max_steps", 400_000),
+			MaxSyncs:    cfgOr(pl, "max_syncs", 200_000),
+			Idle:        time.Duration(cfgOr(pl, "idle_ns", int64(48*time.Hour))),
+			KeepLog:     keepLog,
 		})
 	} else {
 		simrt.SetPerturb(pl.Sched.Seed, uint64(cfgOr(pl, "perturb_one_in", 7)))
